@@ -1,3 +1,4 @@
+pub mod content;
 pub mod engine;
 pub mod hcheck;
 pub mod hist;
